@@ -352,9 +352,9 @@ def explore(fn, max_paths=20000, ctx=None, time_budget_s=None, concolic=None, **
                 if ctx.decisions:
                     ctx.nontrivial_paths += 1
                     if (smt.STATS.feas + smt.STATS.decide == q0 or all(k == 'concrete' for k in ctx.path_kinds)) \
-                            and (ctx.paths <= 2000 or ctx.paths % 16 == 0):
+                            and (ctx.paths <= 200 or ctx.paths % 16 == 0):
                         # a path steered only by choice variables whose feasibility is known by construction: let the
-                        # solver confirm the assignment (every path up to 2000 per case, then every 16th)
+                        # solver confirm the assignment (every path up to 200 per case, then every 16th)
                         r = smt.confirm_choices(ctx.pc, ctx.feas_timeout_ms)
                         if r == 'unsat':
                             ctx.unsupported.append('internal: explored path has an unsatisfiable path condition')
